@@ -76,6 +76,11 @@ def fam_blockdims(chk, common_blockdim, coarse_blockdim, tier):
     for _ in range(8000 if tier == "thorough" else 1500):
         n = rng.choice([1, 2, 3, 5, 8, 12, 24, 60])
         inputs.append(related_layouts(rng, n))
+    # F23 (found by the Coq proof): zero-size chunks break "refine only splits"
+    inputs.append([(0, 5), (5, 0)])
+    for _ in range(100):
+        n = rng.choice([2, 3, 5, 8])
+        inputs.append([rand_chunks(rng, n, allow_zero=True), rand_chunks(rng, n, allow_zero=True)])
     cases, kept = [], []
     for ds in inputs:
         dset = set(ds)
@@ -92,13 +97,15 @@ def fam_blockdims(chk, common_blockdim, coarse_blockdim, tier):
         if cm is not None:
             bad = [d for d in dset if not refines(cm, d)]
             want = set().union(*[bounds(d) for d in dset])
-            if bad or bounds(cm) != want or any(c <= 0 for c in cm):
+            zero = any(0 in d for d in dset)
+            if bad or bounds(cm) != want or any(c <= 0 for c in cm) and not zero:
                 chk.violation("common_blockdim is not the common refinement of its inputs",
-                              {"fn": "common_blockdim", "blockdims": sorted(dset), "impl": cm}, signature={"fn": "common_blockdim"})
+                              {"fn": "common_blockdim", "blockdims": sorted(dset), "impl": cm},
+                              signature={"fn": "common_blockdim", "zero_size_chunks": zero})
         if co is not None:
             nt = [d for d in dset if len(d) > 1]
             ok = (co in dset and all(refines(d, co) for d in nt)) or co == cm
-            if not ok:
+            if not ok and not any(0 in d for d in dset):
                 chk.violation("coarse_blockdim is neither an operand layout that every other layout refines nor the common refinement",
                               {"fn": "coarse_blockdim", "blockdims": sorted(dset), "impl": co, "common": cm}, signature={"fn": "coarse_blockdim"})
         lst = sorted(dset)
